@@ -450,8 +450,23 @@ namespace detail
         void add(ctpg::term_value<T>&& t)
         {
             simrt::node_use(t.get_value().vid, t.get_value().mf);
-            ctpg::term_value<T> own(std::move(t));
-            leaf(own.get_value().sv(), own.get_line(), own.get_column());
+            // (1) a functor that INSPECTS its named argument first (the implicit conversion from an lvalue is a copy the
+            //     functor asks for): the argument itself must stay intact
+            if constexpr (std::is_copy_constructible_v<T>)
+            {
+                simrt::own_copies(+1);
+                T peek = t;
+                simrt::own_copies(-1);
+                (void)peek.sv();
+                if (t.get_value().mf) simrt::node_use(t.get_value().vid, true);      // emptied behind the functor's back
+            }
+            ctpg::source_point sp = t.get_sp();
+            // (2) ... and then TAKES the payload the way a by-value parameter `T x` does: converted from the rvalue.
+            //     That must be a move (and must compile for a move-only payload)
+            int64_t copies = simrt::copies_so_far();
+            T own = std::move(t);
+            if (simrt::copies_so_far() != copies) simrt::node_lvalue_arg(own.vid);    // could only be copied out
+            leaf(own.sv(), sp.line, sp.column);
         }
         void error_leaf()
         {
